@@ -98,6 +98,8 @@ class Sim:
         self._pct_points = None
         self.main = None
         self.yield_kinds = {}
+        self.main_blocks = []       # (event seq, phase, what) when T0 had to block
+        self.main_yields = []       # (event seq, phase) when T0 was runnable but not chosen
 
     # ------------------------------------------------------------ threads
     def register_main(self):
@@ -194,6 +196,8 @@ class Sim:
         me.blocked_on = cond
         me.deadline = deadline
         me.what = what
+        if me is self.main and not cond():
+            self.main_blocks.append((self.seq, self.phase, what))
         try:
             self._switch(me, 'block')
         finally:
@@ -214,6 +218,8 @@ class Sim:
             nxt = self._policy_pick(r, me, stay)
         if nxt is not stay:
             self.choices.append([i, r.index(nxt)])
+        if self.main in r and nxt is not self.main:
+            self.main_yields.append((self.seq, self.phase))
         return nxt
 
     def _sub_policy(self):
